@@ -399,8 +399,14 @@ def treeinfo_0_0(D, rng):
         pk = "Packages"
     if rp and "%" in rp:
         rp = "repo"
+    blank_pk = False
     if pk:
         g[rng.choice(["packagedir", "packages"])] = pk
+    elif rng.random() < 0.4:
+        # the option spelled out and left blank (every Fedora file of that age): packages sit in the tree root - which is
+        # NOT the same as the option being absent (then they sit where the repository is)
+        g[rng.choice(["packagedir", "packages"])] = ""
+        blank_pk = True
     if rp:
         g["repository"] = rp
     ident = top["paths"].get("identity")
@@ -435,7 +441,7 @@ def treeinfo_0_0(D, rng):
         for p, (t, x) in D["checksums"].items():
             S["checksums"][p] = "%s:%s" % (t, x)
     repo_exp = rp or "."
-    pk_exp = pk or repo_exp
+    pk_exp = pk or ("." if blank_pk else repo_exp)
     paths = dict((k, None) for k in domains.TREE_PATH_KINDS)
     if arch == "src":
         paths["source_packages"], paths["source_repository"] = pk_exp, repo_exp
